@@ -2,7 +2,7 @@
    Model: Mvcc/Model.v ([step], [run cmds := fold_left step]); discipline and declarative
    specifications: Mvcc/Spec.v. Every statement is over ALL command sequences. *)
 From Verif Require Import Mvcc.Model Mvcc.Spec Mvcc.ProofsStore Mvcc.ProofsKey Mvcc.ProofsKstep Mvcc.ProofsShape
-     Mvcc.ProofsStep Mvcc.ProofsRead Mvcc.ProofsLate Mvcc.ProofsMarker Mvcc.ProofsIdem Mvcc.ProofsIdem2 Mvcc.ProofsIdem3 Mvcc.ProofsLockMono Mvcc.ProofsDef Mvcc.ProofsSeq Mvcc.Deadlock Mvcc.ProofsDeadlock Mvcc.ProofsDeadlock2.
+     Mvcc.ProofsStep Mvcc.ProofsRead Mvcc.ProofsLate Mvcc.ProofsMarker Mvcc.ProofsIdem Mvcc.ProofsIdem2 Mvcc.ProofsIdem3 Mvcc.ProofsLockMono Mvcc.ProofsDef Mvcc.ProofsSeq Mvcc.Handler Mvcc.Deadlock Mvcc.ProofsDeadlock Mvcc.ProofsDeadlock2.
 
 (* ---- induction carriers *)
 (* unconditional: keys ascending, write records of every key strictly descending by commit ts *)
@@ -155,6 +155,16 @@ Theorem C12_scan_lock : forall cmds s e m k l,
 Proof. exact scan_lock_spec. Qed.
 Print Assumptions C12_scan_lock.
 
+(* the ScanLock REQUEST as handleKvScanLock serves it (since /repo 9f23e58): start key / end key clipped to the region
+   [rs,re), at most [limit] locks (0 = no limit): the first [limit] locks, in ascending key order, of the locks of the
+   clipped window with start ts <= max *)
+Theorem C12_scan_lock_handler : forall cmds rs re s e limit max,
+  exists ls, handler_scan_lock (run cmds) rs re s e limit max = cut_limit limit ls /\
+             (forall k l, In (k, l) ls <-> in_range (clip_start rs s) (clip_end re e) k = true /\ lock_of (run cmds) k = Some l /\ l_start l <= max) /\
+             Sorted.StronglySorted N.lt (map fst ls).
+Proof. exact handler_scan_lock_spec. Qed.
+Print Assumptions C12_scan_lock_handler.
+
 (* ---- isolation level RC: Get / BatchGet / Scan / ReverseScan answer what the SI read answers on the store
    with every lock removed (any state) *)
 Theorem C12_rc_ignores_locks : forall st q,
@@ -228,6 +238,11 @@ Theorem C12_deadlock_verdict_is_reachability : forall cmds s w k,
   (forall wk, snd (detect d s w k) = VDeadlock wk -> reach d w s) /\ (snd (detect d s w k) = VWait -> ~ reach d w s).
 Proof. exact drun_detect_spec. Qed.
 Print Assumptions C12_deadlock_verdict_is_reachability.
+
+(* commit / batch rollback / cleanup of a transaction drop its wait-for edges, whatever they answer *)
+Theorem C12_deadlock_finish_clears_edges : forall sd c s, finishes c = Some s -> d_get (snd (fst (dstep sd c))) s = [].
+Proof. exact finish_clears_edges. Qed.
+Print Assumptions C12_deadlock_finish_clears_edges.
 
 (* the store of the layered model is the store of [run]: every theorem above about [run cmds] holds with the detector *)
 Theorem C12_deadlock_store_refines : forall cmds, fst (drun cmds) = run cmds.
@@ -321,3 +336,10 @@ Proof. vm_compute. exact I. Qed.
 Example ex_cyclic_graph_runs_out_of_fuel :
   do_detect 3 [(1, [(2, 5)]); (2, [(1, 5)])] 9 1 = None /\ do_detect 50 [(1, [(2, 5)]); (2, [(1, 5)])] 9 1 = None.
 Proof. vm_compute. split; reflexivity. Qed.
+
+(* ---- handler-level scan lock: window clipped to the region, cut at limit *)
+Example ex_scan_lock_handler :
+  let st := run [plk (T 1) 1; plk (T 2) 2; plk (T 3) 3; plk (T 4) 4] in
+  map fst (handler_scan_lock st 0 3 2 0 0 (T 9)) = [2] /\ map fst (handler_scan_lock st 3 0 1 0 1 (T 9)) = [3]
+  /\ map fst (handler_scan_lock st 0 0 0 0 3 (T 9)) = [1; 2; 3] /\ map fst (handler_scan_lock st 0 0 2 4 0 (T 2)) = [2].
+Proof. vm_compute. repeat split. Qed.
